@@ -185,6 +185,10 @@ type gsched struct {
 
 	nextRes     int
 	factoryFail bool
+	factoryHang bool            // the next factory call blocks until the f1 step releases it
+	lateGates   []chan struct{} // factory calls in flight whose get has given up
+	lateArrived chan struct{}
+	foreignHits int64 // hook points passed by goroutines the scheduler does not know
 	closedSeen  bool
 	stopSweep   bool
 	stopTick    bool
@@ -225,7 +229,29 @@ func (s *gsched) hook(point string) {
 		p = s.procs["worker"]
 		s.byGoid.Store(gid, p)
 	} else {
-		return // not one of ours (e.g. the pool's own timers, which the harness stops)
+		// not one of ours: a goroutine the pool created outside the specification runs free.  It cannot be given a
+		// recover(): when it stands immediately before an operation that is certain to panic, the panic is recorded
+		// instead of executed (it would kill the test process).
+		atomic.AddInt64(&s.foreignHits, 1)
+		ch := s.rp.resources
+		msg := ""
+		switch {
+		case point == "p2" && s.closedSeen, (point == "s4" || point == "g10" || point == "i4") && s.closedSeen:
+			msg = "send on closed channel"
+		case point == "p2" && len(ch) >= cap(ch):
+			msg = "attempt to Put into a full ResourcePool"
+		case point == "s5" && s.closedSeen:
+			msg = "close of closed channel"
+		}
+		if msg != "" {
+			s.mu.Lock()
+			s.ev(rpEvent{Ev: "Panic", C: "foreign", What: msg + " (certain: a goroutine outside the specification stands immediately before the operation)"})
+			s.addSymptom(fmt.Sprintf("panic foreign:%s %s", point, rpPanicClass(msg)))
+			s.mu.Unlock()
+			atomic.AddInt64(&s.foreignHits, 1)
+			select {}
+		}
+		return
 	}
 	s.events <- garrival{p: p, label: point}
 	cmd := <-p.release
@@ -267,11 +293,29 @@ func (s *gsched) obs() []int {
 }
 
 func (s *gsched) factory() (Resource, error) {
+	// runs in a goroutine created by createResourceWithRetry; exactly one call is active at a time
 	if s.factoryFail {
 		return nil, errors.New("verif: factory failure")
 	}
+	if s.factoryHang {
+		s.factoryHang = false
+		g := make(chan struct{})
+		s.mu.Lock()
+		s.lateGates = append(s.lateGates, g)
+		s.mu.Unlock()
+		s.lateArrived <- struct{}{}
+		<-g // released by the f1 step (or never, when the run is abandoned)
+		s.mu.Lock()
+		s.nextRes++
+		id := s.nextRes
+		s.mu.Unlock()
+		return &rpRes{id: id}, nil
+	}
+	s.mu.Lock()
 	s.nextRes++
-	return &rpRes{id: s.nextRes}, nil
+	id := s.nextRes
+	s.mu.Unlock()
+	return &rpRes{id: id}, nil
 }
 
 // run wraps a process body: registration of the goroutine, abort sentinel, panic capture.
@@ -371,7 +415,7 @@ func (s *gsched) clientBody(p *gproc) func() {
 
 func newGsched(cfg rpCfg, tid string) (*gsched, error) {
 	s := &gsched{cfg: cfg, procs: map[string]*gproc{}, events: make(chan garrival, 16), held: map[int]string{}, lastGot: map[string]int{},
-		capAtG4: map[string]int64{}, tid: tid}
+		capAtG4: map[string]int64{}, tid: tid, lateArrived: make(chan struct{}, 8)}
 	rp, err := NewResourcePool(s.factory, cfg.Init, cfg.Max, 0)
 	if err != nil {
 		return nil, err
@@ -392,6 +436,7 @@ func newGsched(cfg rpCfg, tid string) (*gsched, error) {
 	add("worker", "worker")
 	add("setcap", "setcap")
 	add("closer", "closer")
+	add("factory", "factory").parked = "f1" // environment: completion of factory calls whose get gave up
 	return s, nil
 }
 
@@ -516,6 +561,9 @@ func (s *gsched) enabled(p *gproc, a int) bool {
 		return false
 	}
 	ch := s.rp.resources
+	if p.role == "factory" {
+		return len(s.lateGates) > 0 && a == 0
+	}
 	switch p.parked {
 	case "g2", "t1":
 		return s.lockFree()
@@ -553,6 +601,13 @@ func (s *gsched) step(p *gproc, a int) bool {
 		s.capAtG4[p.name] = rp.capacity.Get()
 	case "g9":
 		s.factoryFail = a == 1
+		if a == 2 {
+			// the caller's context expires while the factory call is in flight
+			s.factoryHang = true
+			if p.cancel != nil {
+				p.cancel()
+			}
+		}
 	case "g7":
 		if a == 1 && p.cancel != nil {
 			p.cancel()
@@ -584,6 +639,20 @@ func (s *gsched) step(p *gproc, a int) bool {
 	case "k2":
 		s.stopTick = true
 	}
+	if p.role == "factory" {
+		// f1: the oldest factory call still in flight returns its resource; nobody is waiting for it.  Anything the
+		// pool does with it happens in goroutines outside the specification: let that settle before observing.
+		s.mu.Lock()
+		g := s.lateGates[0]
+		s.lateGates = s.lateGates[1:]
+		s.mu.Unlock()
+		close(g)
+		s.settle()
+		rec.O = s.obs()
+		s.executed = append(s.executed, rec)
+		s.steps = append(s.steps, rpStepEv{T: s.tid, P: p.name, L: label, A: a, O: rec.O})
+		return true
+	}
 	// a goroutine created by the pool itself cannot be given a recover(): when it is parked right
 	// before an operation that is certain to panic, the panic is recorded instead of executed
 	if p.role == "worker" && s.closedSeen && (label == "s4" || label == "s5") {
@@ -591,8 +660,10 @@ func (s *gsched) step(p *gproc, a int) bool {
 		if label == "s5" {
 			msg = "close of closed channel"
 		}
+		s.mu.Lock()
 		s.ev(rpEvent{Ev: "Panic", C: p.name, What: msg + " (certain: parked immediately before the operation on a closed channel)"})
 		s.addSymptom(fmt.Sprintf("panic worker:%s %s", label, rpPanicClass(msg)))
+		s.mu.Unlock()
 		p.dead, p.finished, p.parked = true, true, ""
 		rec.O = s.obs()
 		s.executed = append(s.executed, rec)
@@ -655,6 +726,14 @@ func (s *gsched) step(p *gproc, a int) bool {
 			s.addCause("scale-out-during-pending-shrink by " + pendingAtG5 + ":s3")
 		}
 	}
+	if label == "g9" && a == 2 {
+		select {
+		case <-s.lateArrived:
+		case <-time.After(rpWatchdog):
+			s.stuck = true
+			return false
+		}
+	}
 	if rp.capacity.Get() != capBefore {
 		s.lastCapW = p.role + ":" + label
 		if label == "s2" && p.role == "worker" && rp.capacity.Get() < rp.baseCapacity.Get() {
@@ -676,10 +755,23 @@ func (s *gsched) step(p *gproc, a int) bool {
 	return true
 }
 
+// settle waits until goroutines outside the schedule have stopped passing hook points (2 ms of silence).
+func (s *gsched) settle() {
+	last := atomic.LoadInt64(&s.foreignHits)
+	quiet := time.Now()
+	deadline := quiet.Add(rpWatchdog)
+	for time.Since(quiet) < 2*time.Millisecond && time.Now().Before(deadline) {
+		runtime.Gosched()
+		if n := atomic.LoadInt64(&s.foreignHits); n != last {
+			last, quiet = n, time.Now()
+		}
+	}
+}
+
 func (s *gsched) allFinished() bool {
 	for _, n := range s.order {
 		p := s.procs[n]
-		if p.finished {
+		if p.finished || (p.role == "factory" && len(s.lateGates) == 0) {
 			continue
 		}
 		if (p.parked == "t0" && s.stopTick) || (p.parked == "i0" && s.stopSweep) {
@@ -693,7 +785,7 @@ func (s *gsched) allFinished() bool {
 func (s *gsched) quiescent() bool {
 	for _, n := range s.order {
 		p := s.procs[n]
-		if p.finished || p.parked == "t0" || p.parked == "i0" {
+		if p.finished || p.parked == "t0" || p.parked == "i0" || p.role == "factory" {
 			continue
 		}
 		return false
@@ -725,7 +817,7 @@ func (s *gsched) abortAll() {
 	atomic.StoreInt32(&s.aborted, 1)
 	for _, n := range s.order {
 		p := s.procs[n]
-		if p.parked != "" && !p.finished {
+		if p.parked != "" && !p.finished && p.role != "factory" {
 			select {
 			case p.release <- 1:
 			case <-time.After(200 * time.Millisecond):
@@ -882,6 +974,8 @@ func runGated(c *rpCase, tid string, sched []rpStep, rng *rand.Rand) (*rpRun, *g
 				case "g9":
 					if c.Cfg.FactoryFails && rng.Intn(5) == 0 {
 						a = 1
+					} else if c.Cfg.Timeouts && rng.Intn(5) == 0 {
+						a = 2
 					}
 				case "i0":
 					a = rng.Intn(2)
